@@ -136,6 +136,29 @@ func walk(e *yang.Entry, f func(*yang.Entry), depth int) {
 
 var hostilePaths = []string{"", "/", "//", "/.", "/..", "..", "../..", ".", "a", "/a", "/a/", "a//b", "/:", ":", "/x:", "/:x", "/a:b/c:d", "input", "output", "input/output", "../input", "/bogus:a", "a/../../../..", "/a/./b", "a:b:c"}
 
+type countingWriter struct{ n int64 }
+
+func (c *countingWriter) Write(p []byte) (int, error) { c.n += int64(len(p)); return len(p), nil }
+
+// braceDepth is an upper bound of the nesting depth of the text (quoting is ignored).
+func braceDepth(t string) int {
+	d, max := 0, 0
+	for i := 0; i < len(t); i++ {
+		switch t[i] {
+		case '{':
+			d++
+			if d > max {
+				max = d
+			}
+		case '}':
+			if d > 0 {
+				d--
+			}
+		}
+	}
+	return max
+}
+
 // Execute loads the texts into one set, processes, and reads everything back. It returns
 // what happened, for the counters: "load-error", "process-error", "clean".
 func Execute(texts []string, names []string, useFiles bool) (outcome string, errClasses []string) {
@@ -155,8 +178,13 @@ func Execute(texts []string, names []string, useFiles bool) (outcome string, err
 			for _, s := range ss {
 				s.Location()
 				s.Arg()
-				var b bytes.Buffer
-				s.Write(&b, "")
+				// Written output is indented by the nesting depth, so its size is the
+				// product of text size and depth by the nature of the call: it goes to
+				// a writer that only counts, and texts whose product exceeds 1 GiB are
+				// not written at all (a thorough run died of its own 8 GB buffer here).
+				if int64(len(t))*int64(braceDepth(t)+1) <= 1<<30 {
+					s.Write(&countingWriter{}, "")
+				}
 			}
 		}
 		var err error
